@@ -75,6 +75,14 @@ func (e *Env) Logf(format string, args ...any) {
 	}
 }
 
+// Tracef adds a line to the trace of a traced run without touching the event-log hash: for
+// looking at a run more closely than its verdict needs (the determinism tool's follow-ups).
+func (e *Env) Tracef(format string, args ...any) {
+	if e.Trace {
+		e.trace = append(e.trace, "  ~ "+fmt.Sprintf(format, args...))
+	}
+}
+
 // Ev is the cheap form of Logf for hot loops: kind plus integers.
 func (e *Env) Ev(kind string, vals ...uint64) {
 	Tick()
